@@ -182,7 +182,7 @@ pub fn run_c06(out: &mut Out, tier: &str, rng: &mut Rng) {
             }
             // per-byte sweeps on the frames each driver decodes most deeply
             let deep: &[u32] = match kind {
-                "hcu" | "vcu" | "sim" => &[65288, 45824, 45312, 65242],
+                "hcu" | "vcu" | "sim" => &[65288, 45824, 45312, 65242, 40960, 41216],
                 "encoder" => &[65450],
                 "inclino" => &[65451],
                 "d7e" | "ecm" => &[61444, 0, 65262, 65263, 65271],
@@ -197,6 +197,28 @@ pub fn run_c06(out: &mut Out, tier: &str, rng: &mut Rng) {
                         d[pos] = v;
                         let src = if kind == "sim" { 0x4A } else { da };
                         recv_case(out, kind, da, sa, &frame8(make_id(6, pgn, 0xFF, src), d), true);
+                    }
+                }
+            }
+            // extreme 16- and 32-bit words in every aligned slot (signed minima / maxima, all ones, zero)
+            for &pgn in deep {
+                let src = if kind == "sim" { 0x4A } else { da };
+                for fill in [0xFFu8, 0x00] {
+                    for slot in 0..4usize {
+                        for w in [0x8000u16, 0x7FFF, 0x8001, 0xFFFF, 0x0000, 0x0001, 0xFF00, 0x00FF] {
+                            let mut d = [fill; 8];
+                            d[2 * slot..2 * slot + 2].copy_from_slice(&w.to_le_bytes());
+                            for dest in [0xFFu8, da, 0x4A] {
+                                recv_case(out, kind, da, sa, &frame8(make_id(3, pgn, dest, src), d), true);
+                            }
+                        }
+                    }
+                    for slot in 0..2usize {
+                        for w in [0x8000_0000u32, 0x7FFF_FFFF, 0xFFFF_FFFF, 0, 1, 0xFFFF_FFFE] {
+                            let mut d = [fill; 8];
+                            d[4 * slot..4 * slot + 4].copy_from_slice(&w.to_le_bytes());
+                            recv_case(out, kind, da, sa, &frame8(make_id(3, pgn, 0xFF, src), d), true);
+                        }
                     }
                 }
             }
